@@ -177,6 +177,12 @@ fn compare_fields(case: &Case, v: &BoxSubj, r: &RVal, l: &mut Local, tag: &str) 
             let (a, b) = (v.debug(), exp.debug());
             if a != b {
                 l.viol(case.viol("field-mismatch", tag, b, a));
+            } else if !a.contains("NaN") {
+                // a copy of the decoded value (clone, clone_from into a built value) is the same
+                // value: same view, same retained bytes, same encoding
+                if let Ok(false) | Err(_) = v.clone_eq() {
+                    l.viol(case.viol("copy-differs", tag, "clone / clone_from copy indistinguishable from the decoded value".into(), "differs or panicked".into()));
+                }
             }
         }
         Ok(None) => {
